@@ -174,6 +174,13 @@ func (o *oracle) newCommitTs(txn *Txn) (uint64, bool) {
 	} else {
 		// If commitTs is set, use it instead.
 		ts = txn.commitTs
+		if ts == 0 {
+			// No commit timestamp: every entry carries its own version (see
+			// NewManagedWriteBatch). Such a transaction cannot conflict with anything
+			// (hasConflict ignores ts <= readTs), so there is nothing to record; and it must
+			// not be checked against lastCleanupTs, which SetDiscardTs may have advanced.
+			return 0, false
+		}
 	}
 
 	y.AssertTrue(ts >= o.lastCleanupTs)
